@@ -30,6 +30,15 @@ def run_one(patch, tier):
             if r.returncode != 0:
                 return prop, "PATCH-FAILED", r.stdout + r.stderr
         env = dict(os.environ, VERIF_REPO=dst, VERIF_TIER=tier, VERIF_EVIDENCE_DIR=os.path.join(tmp, "ev"))
+        if prop == "ALL":
+            # a behaviour-preserving change: every property's check must stay quiet on it
+            from concurrent.futures import ThreadPoolExecutor
+            props = ["C%02d" % i for i in range(1, 19)]
+            with ThreadPoolExecutor(3) as ex:
+                rs = list(ex.map(lambda q: subprocess.run([os.path.join(VERIF, "check"), q], env=env, capture_output=True, text=True), props))
+            loud = [(q, r) for q, r in zip(props, rs) if r.returncode != 0 or "VIOLATION property=" in r.stdout]
+            return prop, ("QUIET" if not loud else "FALSE-ALARM " + ",".join("%s(rc=%d)" % (q, r.returncode) for q, r in loud)), \
+                "\n".join(q + ": " + r.stdout[-1200:] + r.stderr[-600:] for q, r in loud)
         r = subprocess.run([os.path.join(VERIF, "check"), prop], env=env, capture_output=True, text=True)
         fired = "VIOLATION property=%s" % prop in r.stdout
         if os.sep + "benign" + os.sep in patch:
